@@ -79,6 +79,9 @@ class Prop(core.Prop):
         # header flag variants and sub-hourly (20-minute) time blocks
         for flags in ((0, 1), (1, 0), (0, 0)):
             yield dict(group, layers='2+3', start=[1, 1, 1], tables='complete', flags=list(flags))
+        for lp in ('1', '2+3'):
+            yield dict(group, layers=lp, start=[1, 1, 1], tables='complete', reserved=True)
+            yield dict(group, layers=lp, start=[13, 50, 1], tables='complete', reserved=True, dt=3)
         if group['nt'] >= 2:
             for lp in ('1', '2+3'):
                 yield dict(group, layers=lp, start=[1, 1, 1], tables='complete', revtime=True)
@@ -114,8 +117,10 @@ class Prop(core.Prop):
             blk = []
             for k, (cat, off, num, name, scale, unit, nl) in enumerate(vars_):
                 data = (1e-9 * (1 + np.arange(nl * nj * ni) + 100 * k + 1000 * t)).reshape(nl, nj, ni).astype('f4')
+                # the 40-character 'reserved' field of the block header: blank, or a tag per tracer
+                rsv = ('station=%s run=%d' % ('ABCD'[k % 4], 17 + k)) if case.get('reserved') and k % 2 == 0 else ''
                 blk.append(dict(category=cat, tracer=num - off, unit='v/v', tau0=self.taus[t][0], tau1=self.taus[t][1],
-                                reserved='', start=tuple(case['start']), data=data))
+                                reserved=rsv, start=tuple(case['start']), data=data))
             blocks.append(blk)
         r = dict(ftype='CTM bin 02', toptitle='GEOS-CHEM binary punch file v. 2.0', modelname='GEOS5_47L',
                  modelres=(2.5, 2.0), halfpolar=case.get('flags', [1, 1])[0],
@@ -192,7 +197,7 @@ class Prop(core.Prop):
         scope = dict(nt=case['nt'], ncat=case['ncat'], ntr=case['ntr'], layers=case['layers'],
                      nested=bool(case['start'] != [1, 1, 1]), tables=case['tables'],
                      subhourly=bool(case.get('dt', 1) != 1), flags='%d%d' % tuple(case.get('flags', [1, 1])),
-                     revtime=bool(case.get('revtime')))
+                     revtime=bool(case.get('revtime')), reserved=bool(case.get('reserved')))
         vs = []
         ntrans = 0
 
@@ -326,7 +331,7 @@ class Prop(core.Prop):
                 ref = rf.dec_bpch(raw)
                 for x, y in zip(dec['flat'], ref['flat']):
                     for fld in ('category', 'tracer', 'tau0', 'tau1', 'start', 'modelname', 'modelres', 'halfpolar',
-                                'center180'):
+                                'center180', 'reserved'):
                         if x[fld] != y[fld]:
                             vs.append(viol('write-header', ('ncf2bpch', 'scaled'), '%s %r expected %r' % (fld, x[fld], y[fld]),
                                            field=fld, **scope))
